@@ -372,3 +372,56 @@ impl Default for PlanProbe {
         Self::new()
     }
 }
+
+/// The metadata worker's request-side state (`FetchPlan` + `PendingFetches`) driven through the
+/// production starter step `PendingFetches::start_due_fetches` and the production completion step
+/// (`<PendingFetches as Future>::poll`). Fetches are stand-ins that complete when told to.
+pub struct StarterProbe(crate::cluster::metadata::worker_verif_seam::Starter);
+
+/// Which fetches are in flight.
+#[derive(Clone, Copy, Debug, PartialEq, Eq)]
+pub struct InFlight {
+    pub full: bool,
+    pub client_routes: bool,
+    pub topology: bool,
+}
+
+impl StarterProbe {
+    pub fn new() -> Self {
+        StarterProbe(crate::cluster::metadata::worker_verif_seam::Starter::new())
+    }
+    pub fn note_full_needed(&mut self) {
+        self.0.plan().note_full_needed()
+    }
+    pub fn note_topology(&mut self) {
+        self.0.plan().note_topology()
+    }
+    pub fn note_client_routes(&mut self, pairs: &[(String, u32)]) {
+        self.0.plan().note_client_routes(pairs.iter().map(|(c, h)| (c.clone(), host(*h))).collect())
+    }
+    /// `PendingFetches::start_due_fetches(plan, ..)`.
+    pub fn start_due(&mut self) {
+        self.0.start_due()
+    }
+    /// Completes one in-flight fetch (0 full, 1 client routes, 2 topology) via the production `poll`.
+    /// False: that fetch is not in flight, or the production code reported another outcome.
+    pub fn complete(&mut self, which: u8) -> bool {
+        self.0.complete(which)
+    }
+    pub fn in_flight(&self) -> InFlight {
+        let (full, client_routes, topology) = self.0.in_flight();
+        InFlight { full, client_routes, topology }
+    }
+    pub fn owed(&mut self) -> PlanView {
+        let (full, topology, pairs) = self.0.plan().describe();
+        let mut client_routes: Vec<(String, u32)> = pairs.into_iter().map(|(c, h)| (c, tag(h))).collect();
+        client_routes.sort();
+        PlanView { full, topology, client_routes }
+    }
+}
+
+impl Default for StarterProbe {
+    fn default() -> Self {
+        Self::new()
+    }
+}
